@@ -90,6 +90,9 @@ pub fn run(rep: &mut Report) {
             let p2 = vec![other.message.clone()];
             let _ = trap::catch(|| with_record(&other, &p2, |rec| enc.encode(&mut failing, rec)));
         }
+        if rng.chance(1, 8) {
+            encode_a_record_that_panics(&enc, &ctx);
+        }
         for chunking in 0..4 {
             let pieces = if chunking == 3 { split_pieces(&ctx.message, rng) } else { vec![ctx.message.clone()] };
             let mut w = if chunking == 0 { CapW::new() } else { CapW::short(rng.next_u64()) };
